@@ -755,6 +755,9 @@ func c07RowsBrief(rows []Row) string {
 func c07HavingTrace(c *c07Case, g *c07Group) string {
 	var parts []string
 	c.Having.atoms(func(a *c07Pred) {
+		if a.Expr == nil { // a comparison of the group column with a text literal
+			return
+		}
 		v, _ := a.Expr.eval(g.Rows)
 		lhs := a.Alias
 		if a.OpKind != "alias" {
